@@ -4,7 +4,27 @@
                                                  1..4 = American Canadian Australian British); fuzzy "dist , w , r1 , r2 ; .."
                                                  prints "-" | "s e : sug , sug ; .." | "P"
      F m d exact exact_lower                     accept_facts (m: 0 = no metadata, 1 = no dialect, 2..5 = dialect); prints 1/0
-     W                                           the Coq witness of F24: "entries | src | word spans | lints" *)
+     W                                           the Coq witness of F24: "entries | src | word spans | lints"
+     R name lo-hi lo-hi ..                       range table of a Unicode predicate of the lexer model (ws | num | alpha | ling),
+                                                 dumped from Rust's char methods; prints "R name #ranges"
+     T src                                       C06Words.doc_words: the Word-token spans "s e s e .." | "-" | "P"
+     O w                                         C06Words.one_word: 1 / 0
+     A cp                                        the four flags Tables_f24.f24_alphabet gives the character: e.g. 0011 *)
+let tables : (string, (int * int) array) Hashtbl.t = Hashtbl.create 8
+let in_table name =
+  fun (c : n) ->
+    match Hashtbl.find_opt tables name with
+    | None -> false
+    | Some a ->
+        let x = int_of_n c in
+        let lo = ref 0 and hi = ref (Array.length a - 1) and found = ref false in
+        while not !found && !lo <= !hi do
+          let mid = (!lo + !hi) / 2 in
+          let (l, h) = a.(mid) in
+          if x < l then hi := mid - 1 else if x > h then lo := mid + 1 else found := true
+        done;
+        !found
+let uni_now () = { u_whitespace = in_table "ws"; u_numeric = in_table "num"; u_alphabetic = in_table "alpha"; u_lingual = in_table "ling" }
 let tbl_flags : (int, int) Hashtbl.t = Hashtbl.create 8192
 let tbl_lc : (int, n list) Hashtbl.t = Hashtbl.create 8192
 let tbl_uc : (int, n list) Hashtbl.t = Hashtbl.create 8192
@@ -74,6 +94,29 @@ let () =
          | [m; d; ex; exl] ->
              let meta = if m = 0 then None else if m = 1 then Some None else Some (Some (dialect_of_int (m - 1))) in
              print_endline (if run_accept_facts meta (dialect_of_int d) (ex <> 0) (exl <> 0) then "1" else "0")
+         | _ -> print_endline "?")
+    | 'R' ->
+        (match List.filter (fun w -> w <> "") (String.split_on_char ' ' body) with
+         | name :: ranges ->
+             let a = Array.of_list (List.map (fun r ->
+                 match String.split_on_char '-' r with
+                 | [x; y] -> (int_of_string x, int_of_string y)
+                 | _ -> failwith "bad range") ranges) in
+             Hashtbl.replace tables name a;
+             Printf.printf "R %s %d\n" name (Array.length a)
+         | [] -> print_endline "?")
+    | 'T' ->
+        (match run_doc_words (uni_now ()) (text_of_line body) with
+         | Panic _ -> print_endline "P"
+         | Ok [] -> print_endline "-"
+         | Ok ws -> print_endline (show_spans ws))
+    | 'O' -> print_endline (if run_one_word (uni_now ()) (text_of_line body) then "1" else "0")
+    | 'A' ->
+        (match ints_of_line body with
+         | [cp] ->
+             let (((w, nm), al), lg) = f24_flags (n_of_int cp) in
+             let b x = if x then "1" else "0" in
+             print_endline (b w ^ b nm ^ b al ^ b lg)
          | _ -> print_endline "?")
     | 'W' ->
         print_endline (String.concat " | "
